@@ -88,6 +88,8 @@ func (f *Lt) Call(s *slip.Scope, args slip.List, depth int) slip.Object {
 		case slip.Complex:
 			slip.TypePanic(s, depth, "numbers", arg, "real")
 		}
+		// Each number is compared to the one before it, not to the first.
+		target = arg
 	}
 	return slip.True
 }
